@@ -227,7 +227,21 @@ class Tensor(Funsor, metaclass=TensorMeta):
 
         # Handle renaming to enable cons hashing, and
         # handle slicing to avoid copying data.
-        if any(isinstance(v, (Variable, Slice)) for v in subs.values()):
+        # This shortcut is valid only if the new names are pairwise distinct and
+        # collide neither with another input of self nor with an input of another
+        # substituted value; otherwise fall through to simultaneous indexing.
+        new_names = [
+            (k, v.name) for k, v in subs.items() if isinstance(v, (Variable, Slice))
+        ]
+        other_names = set()
+        for k, v in subs.items():
+            if not isinstance(v, (Variable, Slice)):
+                other_names.update(v.inputs)
+        can_rename = len(set(n for _, n in new_names)) == len(new_names) and all(
+            (n == k or n not in self.inputs) and n not in other_names
+            for k, n in new_names
+        )
+        if new_names and can_rename:
             slices = None
             inputs = OrderedDict()
             for i, (k, d) in enumerate(self.inputs.items()):
